@@ -211,7 +211,11 @@ func (self *ReplicationBufferQueue) AddPoll(cursor *ReplicationBufferQueueCursor
 	self.glock.Lock()
 	self.pollCount++
 	currentItem := cursor.currentItem
-	for currentItem != nil {
+	if currentItem != nil && currentItem.seq != cursor.seq {
+		// the slot the cursor was positioned on has been recycled since: Pop reports it
+		currentItem = nil
+	}
+	for currentItem != nil && currentItem.pollCount != 0xffffffff {
 		atomic.AddUint32(&currentItem.pollCount, 1)
 		currentItem = currentItem.nextItem
 	}
